@@ -194,25 +194,24 @@ inductive GoodRunAny (norm : Text → Text) : Text → List Op → Prop where
 /-- the invocation without `--skip-existing` (an invocation that wrote did not take the short-circuit) -/
 def Op.noSkip (o : Op) : Op := { o with skipExisting := false }
 
-/-- the LF text behind the file after one invocation on a file kept in the line-ending form `f` (`toCRLF` / `toCR`) -/
-def nextLF (f : Text → Text) (u : Text) (o : Op) : Text :=
-  match annotateText o.c o.replace o.skipExisting o.info (f u) with
-  | .written _ => stepText u o.noSkip
-  | _ => u
+/-- the history as the LF text behind a file kept in the line-ending form `f` (`toCRLF` / `toCR`) sees it: the invocations
+    that wrote to the file, in order, without `--skip-existing` -/
+def lfOps (f : Text → Text) : Text → List Op → List Op
+  | _, [] => []
+  | u, o :: os =>
+    match annotateText o.c o.replace o.skipExisting o.info (f u) with
+    | .written _ => o.noSkip :: lfOps f (stepText u o.noSkip) os
+    | _ => lfOps f u os
 
-/-- the LF text behind the file after a history -/
-def runLF (f : Text → Text) : Text → List Op → Text
-  | u, [] => u
-  | u, o :: os => runLF f (nextLF f u o) os
-
-/-- every step that writes to the file (in form `f`) is good for the LF text behind it, and writes no carriage return of
-    its own -/
-inductive GoodRunForm (norm : Text → Text) (f : Text → Text) : Text → List Op → Prop where
-  | nil (u : Text) : GoodRunForm norm f u []
-  | cons (u : Text) (o : Op) (os : List Op) :
-      ((∃ T, annotateText o.c o.replace o.skipExisting o.info (f u) = .written T) →
-        stepGoodFull norm o.noSkip u ∧ NoCR (stepText u o.noSkip)) →
-      GoodRunForm norm f (nextLF f u o) os → GoodRunForm norm f u (o :: os)
+/-- no invocation that writes to the file (in form `f`) writes a carriage return of its own (the template's business) -/
+inductive CleanRun (f : Text → Text) : Text → List Op → Prop where
+  | nil (u : Text) : CleanRun f u []
+  | wrote (u : Text) (o : Op) (os : List Op) (T : Text) :
+      annotateText o.c o.replace o.skipExisting o.info (f u) = .written T →
+      NoCR (stepText u o.noSkip) → CleanRun f (stepText u o.noSkip) os → CleanRun f u (o :: os)
+  | kept (u : Text) (o : Op) (os : List Op) :
+      (∀ T, annotateText o.c o.replace o.skipExisting o.info (f u) ≠ .written T) →
+      CleanRun f u os → CleanRun f u (o :: os)
 
 /-- contributors requested by the invocations of the history that succeeded -/
 def accumulatedCon : Text → List Op → List Text
